@@ -1,12 +1,12 @@
 """C04 plan."""
-from plan import R, D, stages
+from plan import R, D, T, stages
 import fuzzstage
 
 PLAN = dict(
     extra={"thorough": [fuzzstage.diff_stage(1, "C04")]},
     **stages(
-        quick=[(R, "quick", 16), (D, "small", 16)],
-        thorough=[(R, "thorough", 16), (D, "quick", 16)],
+        quick=[(R, "quick", 16), (D, "small", 16), (T, "small", 16)],
+        thorough=[(R, "thorough", 16), (D, "quick", 16), (T, "quick", 16)],
     ),
     rule=("a case is one alternation pattern with a list of candidate names. Patterns: random brace trees "
           "(depth <= 3, <= 3 items per sequence, <= 4 alternatives, empty alternatives, expansion count <= 64 "
